@@ -52,7 +52,8 @@ def open_key(y, var="key"):
 
 
 def nonce(yv, var="nonce"):
-    return ["let raw_%s = Key::<32>::from([0u8; 32]);" % var, "let %s = PasetoNonce::<V%d, Local>::from(&raw_%s);" % (var, yv, var)]
+    n = 24 if yv == 2 else 32  # the documented nonce size of each version
+    return ["let raw_%s = Key::<%d>::from([0u8; %d]);" % (var, n, n), "let %s = PasetoNonce::<V%d, Local>::from(&raw_%s);" % (var, yv, var)]
 
 
 def program(use, setup, subst, after=()):
